@@ -12,6 +12,7 @@ INVARIANT C16_ExactlyOnce
 INVARIANT C15_TemplateTextVerbatim
 INVARIANT C16_OffNeverEscapes
 INVARIANT C03_WellFormed
+INVARIANT C04_StackIsChainOrder
 """
 
 
@@ -48,7 +49,7 @@ def make_env(case, env_cls=None, names=None, syn=None, **opts):
                  "strict": jinja2.StrictUndefined, "debug": jinja2.DebugUndefined}[case["cfg"]["undefined"]]
     cls = env_cls or jinja2.Environment
     kw = dict(loader=DictLoader(srcs), autoescape=lambda name: autos.get(name, False), undefined=undefined,
-              extensions=["jinja2.ext.loopcontrols"], cache_size=0)
+              extensions=["jinja2.ext.loopcontrols"])
     if syn:
         kw.update(block_start_string=syn[0], block_end_string=syn[1], variable_start_string=syn[2],
                   variable_end_string=syn[3])
